@@ -207,24 +207,25 @@ Fixpoint apply_swaps (n : nat) (chk : state -> op -> bool) (s : state) (f : list
       else None
   end.
 
-(* ShortestPaths._add_swaps(candidate = (path, meeting_point)) AS IN THE SOURCE:
-     for f in forward[1:]:  update((p2l[f], p2l[forward[0]]))   and the same for backward *)
-Definition add_swaps_ops (path : list nat) (mp : nat) : list (state -> nat * nat) :=
-  let forward := firstn (mp + 1) path in
-  let backward := rev (skipn (mp + 1) path) in
-  map (fun f s => (at_ (p2l s) f, at_ (p2l s) (hd 0 forward))) (tl forward) ++
-  map (fun b s => (at_ (p2l s) b, at_ (p2l s) (hd 0 backward))) (tl backward).
-(* the repair proposed in the report: swap CONSECUTIVE path nodes *)
+(* ShortestPaths._add_swaps(candidate = (path, meeting_point)), current source:
+     for previous, f in zip(forward[:-1], forward[1:]):  update((p2l[f], p2l[previous]))
+   and the same for backward: CONSECUTIVE path nodes are exchanged *)
 Fixpoint consecutive (l : list nat) : list (nat * nat) :=
   match l with
   | a :: ((b :: _) as l') => (a, b) :: consecutive l'
   | _ => []
   end.
-Definition add_swaps_fixed_ops (path : list nat) (mp : nat) : list (state -> nat * nat) :=
+Definition add_swaps_ops (path : list nat) (mp : nat) : list (state -> nat * nat) :=
   let forward := firstn (mp + 1) path in
   let backward := rev (skipn (mp + 1) path) in
   map (fun pf s => (at_ (p2l s) (snd pf), at_ (p2l s) (fst pf))) (consecutive forward) ++
   map (fun pf s => (at_ (p2l s) (snd pf), at_ (p2l s) (fst pf))) (consecutive backward).
+(* HISTORICAL (before the repair of qibo): for f in forward[1:]: update((p2l[f], p2l[forward[0]])) *)
+Definition add_swaps_prefix_formula_ops (path : list nat) (mp : nat) : list (state -> nat * nat) :=
+  let forward := firstn (mp + 1) path in
+  let backward := rev (skipn (mp + 1) path) in
+  map (fun f s => (at_ (p2l s) f, at_ (p2l s) (hd 0 forward))) (tl forward) ++
+  map (fun b s => (at_ (p2l s) b, at_ (p2l s) (hd 0 backward))) (tl backward).
 
 (* Sabre._shortest_path_routing: q1 = p2l[path[0]]; for q2 in path[1:-1]: update((q1, p2l[q2])) *)
 Definition sabre_sp_ops (path : list nat) (q1 : nat) : list (state -> nat * nat) :=
